@@ -37,3 +37,8 @@ CLAIMS["C20"] = {
     "note": "Liveness of into_inner is only checked as bounded progress where no emission is in flight (failure path of install). One history class is a listed known finding (deliveries after drop(handle) while another emission is in flight).",
     "technique": "runtime monitoring: enter/exit-stamping recorder double + gated upgrade window; offline check of recovery vs emission intervals; process-per-trial for the global install; Miri",
 }
+CLAIMS["C14"] = {
+    "text": "Exploration including a complete small-scope sweep: all op sequences of length <= 3 over 9 operations x 30 constructor shapes x {str, slices of drop-counting elements} (~49k sequences) plus random long sequences; after every step the content, every Arc strong count and the number of live elements are compared with a reference model; the sweep and random sequences are repeated under ASan+LSan (double free, use after free, leaked buffers) and a reduced sweep under Miri with Stacked Borrows and the leak checker (invalid from_raw_parts, dangling reads, leaks).",
+    "note": "The cfg-exported Cow type is the one behind SharedString / label slices. Miri's sweep is reduced (length <= 2, a third of the shapes at length 2) for time.",
+    "technique": "runtime monitoring: reference ownership model (content, refcounts, live destructors) checked after every operation of enumerated and random sequences; ASan/LSan and Miri legs",
+}
